@@ -476,6 +476,22 @@ def sections(ctx, rule):
         ctx.check(rets == ["arg1.offset.%s" % idx], rule, b.path, "getter", "%s returns offset.%s" % (g, idx), detail=str(rets))
 
 
+def whole_document(ctx, rule):
+    """The serialiser hands the whole raw map to serde_json's writer and reports its errors: every
+    byte of the document reaches the sink or the call fails (no partial `Write::write`, no
+    swallowed error)."""
+    e = ctx.body("encoder::encode")
+    calls = [q.shape(e.expr_of_call(t)) for bi, t in e.calls() if q.nice(t.get("callee")) not in ("Try::branch", "FromResidual::from_residual", "From::from")]
+    ok = calls == ["Encodable::as_raw_sourcemap(arg1)", "ser::to_writer(arg2,Encodable::as_raw_sourcemap(arg1))"]
+    rets = sorted(sh for sh, _, _ in q.def_shapes(e, 0, {}))
+    ok = ok and any(r.startswith("FromResidual::from_residual(break(Try::branch(ser::to_writer(") for r in rets) and any(r.startswith("Result::Ok{") for r in rets) and len(rets) == 2
+    ctx.check(ok, rule, e.path, "to_writer", "encode serialises the raw map with serde_json::to_writer into the caller's sink and propagates its error", detail=str(calls) + str(rets)[:200])
+    from callgraph import CallGraph
+    cg = CallGraph(ctx.facts)
+    users = sorted(set(__import__("pf")._root(c) for c in cg.callers("encoder::encode")))
+    ctx.check(all(u.endswith("::to_writer") or u.endswith("::to_data_url") for u in users) and len(users) >= 4, rule, e.path, "callers", "every to_writer / to_data_url goes through encode", detail=str(users))
+
+
 def hermes_payload(ctx, rule):
     h = ctx.body(AS_RAW["hermes"])
     calls = [q.shape(h.expr_of_call(t)) for bi, t in h.calls()]
@@ -536,6 +552,16 @@ def range_writer(ctx, rule, parts=("R1", "R2", "R3")):
     ctx.check(ok, rule, fn, "R1:reset-on-line-change", "the per-line ordinal restarts when the token starts a new line")
     ctx.check(bool(zs) and all(body.reaches(s[0], sb) and not body.reaches(sb, s[0]) or _same_iter_before(body, head, s[0], sb) for s in zs), rule, fn, "R1:advance-before-use",
               "the line is advanced (and the ordinal restarted) before the token's flag is written in the same iteration")
+    # the line variable is advanced in a loop of its own until it equals the token's line (a jump
+    # over several empty lines writes several ';'), not by a single step per token
+    incs = [site[0] for sh, site, _ in q.def_shapes(body, lls[0], lr) if sh == "Add(1,L)"]
+    inner_ok = False
+    for inc in incs:
+        encl = sorted([set(bl) for h, bl in body.loops() if inc in bl], key=len)
+        if len(encl) >= 2:
+            tests = [q.shape(body.expr_of_operand(body.blocks[d]["term"]["discr"]), lr) for d in encl[0] if body.blocks[d]["term"]["k"] == "switch"]
+            inner_ok = any(q.same_test(x, "Ne(L,Token::get_dst_line(token))") or q.same_test(x, "Ne(Token::get_dst_line(token),L)") or q.same_test(x, "Lt(L,Token::get_dst_line(token))") for x in tests)
+    ctx.check(len(incs) == 1 and inner_ok, rule, fn, "R1:advance-loop", "the current line is advanced one by one in an inner loop until it reaches the token's line (one ';' per skipped line)")
     semis = [(bi, t) for bi, t in q.calls_to(body, "Vec::<T, A>::push") if q.shape(q.arg_expr(body, t, 1)) == "59"]
     ctx.check(len(semis) == 1 and _same_iter_before(body, head, semis[0][0], sb), rule, fn, "R1:semicolon-before-flag",
               "the ';' separators for the token's line are written before its flag (the flag lands on the token's own line)")
